@@ -3,6 +3,8 @@
 package props
 
 import (
+	"runtime"
+
 	"github.com/bilibili/smgo/verifyield"
 
 	"verif/sim/sched"
@@ -17,6 +19,13 @@ func init() {
 		if s := curSched; s != nil {
 			s.Yield(site)
 		}
+	}
+	verifyield.HookBlocked = func(site int) {
+		if s := curSched; s != nil {
+			s.Blocked(site)
+			return
+		}
+		runtime.Gosched()
 	}
 }
 
